@@ -411,6 +411,8 @@ def r7_4(ctx: Ctx, g: Func, f: Func, rule="R7.4"):
         for n_ in range(1, 7):
             reach = True
             for t, pol in gs:
+                while isinstance(t, ast.UnaryOp) and isinstance(t.op, ast.Not):     # integer counts: not (n >= 3) == n < 3
+                    t, pol = t.operand, not pol
                 if isinstance(t, ast.Compare) and norm(t.left) == cnt and len(t.ops) == 1 and const_int(t.comparators[0]) is not None:
                     v = const_int(t.comparators[0])
                     val = {ast.Eq: n_ == v, ast.NotEq: n_ != v, ast.Gt: n_ > v, ast.GtE: n_ >= v,
